@@ -187,11 +187,35 @@ def check_factory(src, reg, prop, levels=(2, 3, 4, 5)):
             continue
         rets = [(s, v) for s, v in paths if not isinstance(v, Raised)]
         bad = []
-        for j, (s, v) in enumerate(rets):
+
+        def flat(x):
+            return [y for e in x for y in flat(e)] if isinstance(x, (tuple, list)) else [x]
+
+        def determines(key):
+            # does a cache key fix both arguments?  (the basis by identity, the number of levels by value)
+            items = flat(key)
+            return any(e is basis for e in items) and any(isinstance(e, int) and not isinstance(e, bool) and e == k for e in items)
+
+        def is_this_class(s, v):
             f = s.obj(v).fields if isinstance(v, Ref) and s.obj(v).cls == "<local class>" else None
-            ok = f is not None and f["__class_statement__"] == CLS and f["__closure__"].get("richardson_iter") == k and f["__closure__"].get("basis_integrator") is basis
-            if not ok:
-                bad.append("path %d returns %r" % (j, v if f is None else {a: f["__closure__"].get(a) for a in ("richardson_iter", "basis_integrator")}))
+            return f is not None and f["__class_statement__"] == CLS and f["__closure__"].get("richardson_iter") == k and f["__closure__"].get("basis_integrator") is basis
+        for j, (s, v) in enumerate(rets):
+            if is_this_class(s, v):
+                continue
+            from pyvc.values import Opaque
+            if isinstance(v, Opaque) and v.tag.split("!")[0] == "module_state":
+                # a class read back from a module-level container (a cache of generated classes).  Module invariant, established at the
+                # store site of this very function: an entry is stored under a key built from the arguments, its value being the class
+                # defined in that call.  A hit then returns a class closed over the same arguments iff the key fixes *both* arguments.
+                reads = [kv for nm, kv in ex.module_reads]
+                stores = [(kv, val) for nm, kv, val in ex.module_stores]
+                keyed = bool(reads) and all(determines(kv) for kv in reads) and bool(stores) and all(determines(kv) for kv, _ in stores)
+                if keyed:
+                    continue
+                bad.append("path %d returns an entry of a module-level container whose key does not fix both the basis and the number of levels (keys read: %r)" % (j, reads))
+                continue
+            f = s.obj(v).fields if isinstance(v, Ref) and s.obj(v).cls == "<local class>" else None
+            bad.append("path %d returns %r" % (j, v if f is None else {a: f["__closure__"].get(a) for a in ("richardson_iter", "basis_integrator")}))
         reg.ground(tag + "returns-the-class-defined-in-this-call-for-the-requested-levels", "post", "generate_richardson_integrator", bool(rets) and not bad,
                    backend="symbolic-exec", detail="%d returning paths; %s" % (len(rets), "; ".join(bad) or "each returns the class statement closed over richardson_iter = %d and the given basis" % k))
     return fi
